@@ -589,6 +589,7 @@ func TestScratch(t *testing.T) {
 			})
 		})
 	importGivenCheck(t, env)
+	userTypeclassCheck(t, env)
 	adaptorCheck(t, env)
 	generateCheck(t, env)
 }
